@@ -21,6 +21,12 @@ fn main() {
     let tier = args.get(2).map(|s| s.as_str()).unwrap_or("quick").to_string();
     let tier = std::env::var("VERIF_TIER").ok().filter(|t| t == "quick" || t == "thorough").unwrap_or(tier);
     let replay = args.iter().position(|a| a == "--replay").and_then(|i| args.get(i + 1)).cloned();
+    if prop == "C15-ref" {
+        std::process::exit(props::c15::ref_digest_cmd(args.get(2).and_then(|s| s.parse().ok()).unwrap_or(0)));
+    }
+    if prop == "C15-procdigest" {
+        std::process::exit(props::c15::proc_digest_cmd());
+    }
     if prop == "selftest" {
         match refmodel::selftest::run() {
             Ok((n, p)) => {
